@@ -5,6 +5,12 @@ Import ListNotations.
 Open Scope string_scope.
 Open Scope list_scope.
 
+Ltac bsplit :=
+  repeat match goal with
+         | [ H : _ && _ = true |- _ ] => let H1 := fresh "Hb" in let H2 := fresh "Hb" in apply andb_true_iff in H as [H1 H2]
+         | [ H : false = true |- _ ] => discriminate H
+         end.
+
 Lemma nth_error_skipn' {A} (l : list A) : forall n k, nth_error (skipn n l) k = nth_error l (n + k).
 Proof. induction l as [|a t IH]; intros [|n] k; simpl; auto. destruct k; reflexivity. Qed.
 Lemma nth_error_firstn' {A} (l : list A) : forall n k, (k < n)%nat -> nth_error (firstn n l) k = nth_error l k.
@@ -70,25 +76,294 @@ Section JUMPS.
     jump_shape ib ia = true -> In T (targets lv ia c) ->
     exists j t, nth_error (labels_of (i_args ia)) j = Some T /\ nth_error (labels_of (i_args ib)) j = Some t /\ In t (targets lv ib c).
   Proof.
-    unfold jump_shape. intros H. apply andb_true_iff in H as [H Hargs]. apply andb_true_iff in H as [Hop _].
+    unfold jump_shape. intros H. apply andb_true_iff in H as [H Hargs]. apply andb_true_iff in H as [Hop Hc].
     apply String.eqb_eq in Hop. pose proof (labels_shape _ _ Hargs) as HLL. unfold targets. rewrite <- Hop.
     destruct (String.eqb (i_op ib) "jmp").
     - destruct (i_args ia) as [|[| |la] [|]]; simpl; try tauto. intros [HT|[]]; subst.
-      destruct (i_args ib) as [|[| |lb] [|? ?]]; simpl in Hargs; try discriminate.
+      destruct (i_args ib) as [|[| |lb] [|? ?]]; simpl in Hargs; try discriminate Hargs.
       exists 0%nat, lb. simpl. auto.
     - destruct (String.eqb (i_op ib) "jnz").
       + destruct (i_args ia) as [|ca [|[| |ta] [|[| |fa] [|]]]]; simpl; try tauto. intros [HT|[]].
-        destruct (i_args ib) as [|cb [|[| |tb] [|[| |fb] [|? ?]]]]; simpl in Hargs; try discriminate;
-          try (destruct cb, ca; discriminate).
-        assert (cb = ca).
-        { destruct cb, ca; simpl in Hargs; try discriminate; apply andb_true_iff in Hargs as [Hc _];
-            [apply Z.eqb_eq in Hc | apply N.eqb_eq in Hc]; congruence. }
-        subst cb. destruct ca; simpl in *;
-          match goal with [ |- context [ (?v =? 0)%Z ] ] => destruct (v =? 0)%Z end; subst;
-          first [ exists 1%nat, fb; simpl; now auto | exists 0%nat, tb; simpl; now auto ].
+        destruct (i_args ib) as [|cb [|xb [|yb [|? ?]]]]; simpl in Hargs; try discriminate Hargs; bsplit.
+        destruct xb as [| |tb]; try discriminate. destruct yb as [| |fb]; try discriminate.
+        rename Hb into H1.
+        assert (cb = ca /\ labels_of [cb] = []) as [E EL].
+        { destruct cb, ca; simpl in H1, Hc; try discriminate;
+            [apply Z.eqb_eq in H1 | apply N.eqb_eq in H1]; split; auto; congruence. }
+        subst cb. destruct ca; try discriminate EL; simpl in *;
+          match goal with [ H : (if (?v =? 0)%Z then _ else _) = _ |- _ ] => destruct (v =? 0)%Z end; subst;
+          first [ (exists 1%nat, fb; simpl; now auto) | (exists 0%nat, tb; simpl; now auto) ].
       + destruct (String.eqb (i_op ib) "djmp"); simpl; try tauto. intros HT.
         apply In_nth_error in HT as [j Hj]. destruct (nth_error (labels_of (i_args ib)) j) as [t|] eqn:Et.
         * exists j, t. split; auto. split; auto. eapply nth_error_In; eauto.
         * apply nth_error_None in Et. assert (j < List.length (labels_of (i_args ia)))%nat by (apply nth_error_Some; congruence). lia.
   Qed.
+
+  (* the same, from the before-side *)
+  Lemma jump_shape_targets_r ib ia c t :
+    jump_shape ib ia = true -> In t (targets lv ib c) ->
+    exists j T, nth_error (labels_of (i_args ia)) j = Some T /\ nth_error (labels_of (i_args ib)) j = Some t /\ In T (targets lv ia c).
+  Proof.
+    unfold jump_shape. intros H. apply andb_true_iff in H as [H Hargs]. apply andb_true_iff in H as [Hop Hc].
+    apply String.eqb_eq in Hop. pose proof (labels_shape _ _ Hargs) as HLL. unfold targets. rewrite <- Hop.
+    destruct (String.eqb (i_op ib) "jmp").
+    - destruct (i_args ib) as [|[| |lb] [|]]; simpl; try tauto. intros [HT|[]]; subst.
+      destruct (i_args ia) as [|[| |la] [|? ?]]; simpl in Hargs; try discriminate Hargs.
+      exists 0%nat, la. simpl. auto.
+    - destruct (String.eqb (i_op ib) "jnz").
+      + destruct (i_args ib) as [|cb [|[| |tb] [|[| |fb] [|]]]]; simpl; try tauto. intros [HT|[]].
+        destruct (i_args ia) as [|ca [|xa [|ya [|? ?]]]]; simpl in Hargs; try discriminate Hargs; bsplit.
+        destruct xa as [| |ta]; try discriminate. destruct ya as [| |fa]; try discriminate.
+        rename Hb into H1.
+        assert (cb = ca /\ labels_of [cb] = []) as [E EL].
+        { destruct cb, ca; simpl in H1, Hc; try discriminate;
+            [apply Z.eqb_eq in H1 | apply N.eqb_eq in H1]; split; auto; congruence. }
+        subst cb. destruct ca; try discriminate EL; simpl in *;
+          match goal with [ H : (if (?v =? 0)%Z then _ else _) = _ |- _ ] => destruct (v =? 0)%Z end; subst;
+          first [ (exists 1%nat, fa; simpl; now auto) | (exists 0%nat, ta; simpl; now auto) ].
+      + destruct (String.eqb (i_op ib) "djmp"); simpl; try tauto. intros HT.
+        apply In_nth_error in HT as [j Hj]. destruct (nth_error (labels_of (i_args ia)) j) as [T|] eqn:Et.
+        * exists j, T. split; auto. split; auto. eapply nth_error_In; eauto.
+        * apply nth_error_None in Et. assert (j < List.length (labels_of (i_args ib)))%nat by (apply nth_error_Some; congruence). lia.
+  Qed.
 End JUMPS.
+
+Lemma last_inst_nth (l : list inst) k x : nth_error l k = Some x -> S k = List.length l -> last_inst l = Some x.
+Proof.
+  intros H HL. destruct (@exists_last _ l) as [p [y E]]; [intros E; subst; destruct k; discriminate|].
+  subst l. rewrite app_length in HL. simpl in HL. assert (k = List.length p) by lia. subst k.
+  rewrite nth_app_last' in H. inversion H; subst. apply last_inst_app.
+Qed.
+
+Lemma icorrs_spec md fb : forall ga, icorrs md fb ga = true ->
+  List.length fb = List.length ga /\
+  forall k ib ia, nth_error fb k = Some ib -> nth_error ga k = Some ia ->
+    if Nat.eqb (S k) (List.length fb) && is_jump ib then jump_shape ib ia = true else icorr md ib ia = true.
+Proof.
+  induction fb as [|ib0 tb IH]; intros [|ia0 ta] H; simpl in H; try discriminate.
+  - split; auto. intros [|k]; discriminate.
+  - destruct tb as [|x tb'].
+    + apply andb_true_iff in H as [Hn H]. destruct ta; try discriminate. split; auto.
+      intros [|k] ib ia Hb Ha; simpl in *; [|destruct k; discriminate]. inversion Hb; inversion Ha; subst.
+      destruct (is_jump ib); auto.
+    + apply andb_true_iff in H as [H1 H2]. destruct (IH _ H2) as [HL HP]. split; [simpl in *; lia|].
+      intros [|k] ib ia Hb Ha.
+      * simpl in Hb, Ha. inversion Hb; inversion Ha; subst. simpl. exact H1.
+      * simpl in Hb, Ha. specialize (HP k ib ia Hb Ha). exact HP.
+Qed.
+
+Lemma phis_in_ok_nth fb : forall ga a0 p' k ib, phis_in_ok fb ga a0 p' = true -> nth_error fb k = Some ib -> is_phi ib = true ->
+  exists ia, nth_error ga k = Some ia /\
+    if is_phi ia then phi_src (i_args ia) a0 = phi_src (i_args ib) p'
+    else exists v, i_args ia = [v] /\ phi_src (i_args ib) p' = Some v.
+Proof.
+  induction fb as [|ib0 tb IH]; intros ga a0 p' k ib H Hn Hp; [destruct k; discriminate|].
+  simpl in H. destruct ga as [|ia0 ta].
+  - apply negb_true_iff in H. exfalso. assert (E : existsb is_phi (ib0 :: tb) = true); [|simpl in E; congruence].
+    apply existsb_exists. exists ib. split; auto. eapply nth_error_In; eauto.
+  - apply andb_true_iff in H as [H1 H2]. destruct k.
+    + simpl in Hn. inversion Hn; subst ib0. exists ia0. split; auto. rewrite Hp in H1.
+      destruct (is_phi ia0).
+      * now apply opt_operand_eqb_eq in H1.
+      * destruct (i_args ia0) as [|v [|]]; try discriminate. exists v. split; auto. now apply opt_operand_eqb_eq in H1.
+    + simpl in Hn. simpl. eapply IH; eauto.
+Qed.
+
+Section CHAIN.
+  Variable M : Type.
+  Variable osem : string -> list Z -> M -> list Z -> M -> Prop.
+  Variable lv : N -> Z.
+  Variables (f g : func) (ch : list (list N)).
+  Hypothesis HC : chain_check f g ch = true.
+  Notation step := (step M osem lv).
+  Notation steps := (steps M osem lv).
+
+  Lemma HC_parts :
+    List.length g = List.length f /\ nth_block g 0 <> [] /\ existsb is_phi (nth_block f 0) = false /\
+    forall a, nth_block g a <> [] ->
+      seg_ok f None a (chain_of ch a) (nth_block g a) = true /\ edges_ok f g a (last (chain_of ch a) a) = true.
+  Proof.
+    unfold chain_check in HC. apply andb_true_iff in HC as [H0 Hall]. apply andb_true_iff in H0 as [H0 Hf0].
+    apply andb_true_iff in H0 as [HL Hg0].
+    apply Nat.eqb_eq in HL. split; auto. split; [intros E; rewrite E in Hg0; discriminate|].
+    split; [now apply negb_true_iff in Hf0|].
+    intros a Ha. pose proof (nth_block_in_range _ _ Ha) as Hr.
+    pose proof (forallb_seq _ _ Hall (N.to_nat a)) as H. cbv beta zeta in H. rewrite N2Nat.id in H.
+    unfold func, block in *. specialize (H ltac:(lia)). apply orb_true_iff in H as [H|H].
+    - destruct (nth_block g a); [congruence | discriminate].
+    - now apply andb_true_iff in H.
+  Qed.
+
+  Lemma seg_ok_cons md b b' cs ga :
+    seg_ok f md b (b' :: cs) ga =
+    match split_last (nth_block f b) with
+    | Some (pre, lst) =>
+      jump_total lst &&
+      match joint_preds f b (labels_of (i_args lst)) b' with
+      | Some ps => forall2b (icorr md) pre (firstn (List.length pre) ga) && seg_ok f (Some ps) b' cs (skipn (List.length pre) ga)
+      | None => false
+      end
+    | None => false
+    end.
+  Proof. reflexivity. Qed.
+
+  Lemma seg_joint md b b' cs ga :
+    seg_ok f md b (b' :: cs) ga = true ->
+    exists pre lst ps, nth_block f b = pre ++ [lst] /\ jump_total lst = true /\
+      joint_preds f b (labels_of (i_args lst)) b' = Some ps /\
+      forall2b (icorr md) pre (firstn (List.length pre) ga) = true /\
+      seg_ok f (Some ps) b' cs (skipn (List.length pre) ga) = true.
+  Proof.
+    rewrite seg_ok_cons. destruct (split_last (nth_block f b)) as [[pre lst]|] eqn:E; try discriminate.
+    apply split_last_spec in E. intros H. apply andb_true_iff in H as [H1 H2].
+    destruct (joint_preds f b (labels_of (i_args lst)) b') as [ps|] eqn:Ej; try discriminate.
+    apply andb_true_iff in H2 as [H2 H3]. exists pre, lst, ps. auto.
+  Qed.
+
+  Inductive sits (a : N) : nat -> option (list N) -> N -> list N -> Prop :=
+  | sits_head : nth_block g a <> [] -> sits a 0 None a (chain_of ch a)
+  | sits_next off md b b' cs pre lst ps :
+      sits a off md b (b' :: cs) -> nth_block f b = pre ++ [lst] ->
+      joint_preds f b (labels_of (i_args lst)) b' = Some ps -> sits a (off + List.length pre) (Some ps) b' cs.
+
+  Lemma app_last_inj {A} (p1 p2 : list A) x1 x2 : p1 ++ [x1] = p2 ++ [x2] -> p1 = p2 /\ x1 = x2.
+  Proof. intros H. apply app_inj_tail in H. exact H. Qed.
+
+  Lemma sits_seg a off md b cs :
+    sits a off md b cs -> seg_ok f md b cs (skipn off (nth_block g a)) = true /\ (off <= List.length (nth_block g a))%nat.
+  Proof.
+    induction 1 as [Hne | off md b b' cs pre lst ps Hs [IH IHo] Hfb Hj].
+    - simpl. split; [|lia]. destruct HC_parts as [_ [_ [_ H]]]. now apply H.
+    - destruct (seg_joint _ _ _ _ _ IH) as [pre2 [lst2 [ps2 [E [Hjt [Hj2 [Hf2 Hs2]]]]]]].
+      rewrite Hfb in E. apply app_last_inj in E as [E1 E2]. subst pre2 lst2. rewrite Hj in Hj2. inversion Hj2; subst ps2.
+      rewrite skipn_skipn' in Hs2. split; auto.
+      apply forall2b_length in Hf2. rewrite firstn_length, skipn_length in Hf2. lia.
+  Qed.
+
+  Lemma sits_head_inv a off b cs : sits a off None b cs -> off = 0%nat /\ b = a /\ cs = chain_of ch a /\ nth_block g a <> [].
+  Proof. intros H. inversion H; subst; auto. Qed.
+
+  Lemma sits_last a off md b cs : sits a off md b cs -> last (chain_of ch a) a = last cs b.
+  Proof.
+    induction 1; auto. rewrite IHsits. simpl. destruct cs as [|n cs]; [reflexivity|].
+    clear. revert n. induction cs as [|x t IH]; intros n; [reflexivity|]. simpl in *. apply IH.
+  Qed.
+
+  (* positions of a block that ends the chain *)
+  Lemma pos_end a off md b :
+    sits a off md b [] ->
+    List.length (nth_block g a) = (off + List.length (nth_block f b))%nat /\
+    forall kb ib, nth_error (nth_block f b) kb = Some ib ->
+      exists ia, nth_error (nth_block g a) (off + kb) = Some ia /\
+        if Nat.eqb (S kb) (List.length (nth_block f b)) && is_jump ib then jump_shape ib ia = true else icorr md ib ia = true.
+  Proof.
+    intros Hs. destruct (sits_seg _ _ _ _ _ Hs) as [H Ho]. simpl in H. destruct (icorrs_spec _ _ _ H) as [HL HP].
+    rewrite skipn_length in HL. split; [lia|].
+    intros kb ib Hb. destruct (nth_error (nth_block g a) (off + kb)) as [ia|] eqn:Ea.
+    - exists ia. split; auto. apply (HP kb ib ia Hb). now rewrite nth_error_skipn'.
+    - apply nth_error_None in Ea. assert (kb < List.length (nth_block f b))%nat by (apply nth_error_Some; congruence). lia.
+  Qed.
+
+  (* positions of a block that is followed by another one *)
+  Lemma pos_mid a off md b b' cs :
+    sits a off md b (b' :: cs) ->
+    exists pre lst ps, nth_block f b = pre ++ [lst] /\ jump_total lst = true /\
+      joint_preds f b (labels_of (i_args lst)) b' = Some ps /\
+      (off + List.length pre <= List.length (nth_block g a))%nat /\
+      forall kb ib, nth_error pre kb = Some ib ->
+        exists ia, nth_error (nth_block g a) (off + kb) = Some ia /\ icorr md ib ia = true.
+  Proof.
+    intros Hs. destruct (sits_seg _ _ _ _ _ Hs) as [H Ho].
+    destruct (seg_joint _ _ _ _ _ H) as [pre [lst [ps [E [Hjt [Hj [Hf Hs2]]]]]]].
+    exists pre, lst, ps. repeat split; auto.
+    - apply forall2b_length in Hf. rewrite firstn_length, skipn_length in Hf. lia.
+    - intros kb ib Hb. destruct (forall2b_nth_ex _ _ _ _ _ Hf Hb) as [ia [Ha Hc]].
+      assert (kb < List.length pre)%nat by (apply nth_error_Some; congruence).
+      rewrite nth_error_firstn', nth_error_skipn' in Ha by auto. eauto.
+  Qed.
+
+  Lemma joint_preds_spec b ls b' : forall ps, joint_preds f b ls b' = Some ps ->
+    forall l, In l ls -> exists p, thread f (List.length f) b l b' = Some p /\ In p ps.
+  Proof.
+    induction ls as [|l0 t IH]; intros ps H l Hl; [destruct Hl|]. simpl in H.
+    destruct (thread f (List.length f) b l0 b') as [p|] eqn:Et; try discriminate.
+    destruct (joint_preds f b t b') as [ps'|] eqn:Ej; try discriminate. inversion H; subst.
+    destruct Hl as [Hl|Hl].
+    - subst. exists p. split; auto. now left.
+    - destruct (IH _ eq_refl _ Hl) as [p2 [H1 H2]]. exists p2. split; auto. now right.
+  Qed.
+
+  Lemma empty_jmp_spec e t : empty_jmp f e = Some t -> exists ins, nth_block f e = [ins] /\ uncond_target ins = Some t.
+  Proof. unfold empty_jmp. destruct (nth_block f e) as [|ins [|]]; try discriminate. eauto. Qed.
+
+  Lemma thread_steps n : forall pe e b p' c m,
+    thread f n pe e b = Some p' -> steps (f) (Run e 0 (Some pe) c m) [] (Run b 0 (Some p') c m).
+  Proof.
+    induction n as [|n IH]; intros pe e b p' c m H; simpl in H.
+    - destruct (N.eqb e b) eqn:E; try discriminate. apply N.eqb_eq in E. inversion H; subst. constructor.
+    - destruct (N.eqb e b) eqn:E.
+      + apply N.eqb_eq in E. inversion H; subst. constructor.
+      + destruct (empty_jmp f e) as [t|] eqn:Ee; try discriminate. destruct (empty_jmp_spec _ _ Ee) as [ins [Hb Hu]].
+        destruct (uncond_target_spec lv ins t c Hu) as [Hj Ht].
+        eapply steps_nil_trans; [|eapply IH; eauto]. apply steps_one. eapply s_jump; eauto.
+        * rewrite Hb. reflexivity.
+        * rewrite Hb. reflexivity.
+        * rewrite Ht. now left.
+  Qed.
+
+  (* ---------------------------------------------------------------- the relation *)
+  Definition predrel (a : N) (md : option (list N)) (pa pb : option N) : Prop :=
+    match md with
+    | Some ps => exists q, pb = Some q /\ In q ps
+    | None => (pa = None /\ pb = None /\ a = 0%N) \/
+              (exists a0 p', pa = Some a0 /\ pb = Some p' /\ phis_in_ok (nth_block f a) (nth_block g a) a0 p' = true)
+    end.
+
+  Inductive Rc : conf M -> conf M -> Prop :=
+  | Rc_in a off md b cs kb pa pb c m :
+      sits a off md b cs -> (cs <> [] -> S kb <= List.length (nth_block f b))%nat -> predrel a md pa pb ->
+      Rc (Run a (off + kb) pa c m) (Run b kb pb c m)
+  | Rc_tr a off md b cs pa pe e p' n c m :
+      sits a off md b cs -> thread f n pe e b = Some p' -> predrel a md pa (Some p') ->
+      Rc (Run a off pa c m) (Run e 0 (Some pe) c m).
+
+  Lemma sits_mid_nonempty a off md b b' cs : sits a off md b (b' :: cs) -> (1 <= List.length (nth_block f b))%nat.
+  Proof. intros H. destruct (pos_mid _ _ _ _ _ _ H) as [pre [lst [ps [E _]]]]. rewrite E, app_length. simpl. lia. Qed.
+
+  (* the original function catches up: it leaves the positions that have no counterpart in the merged block *)
+  Lemma canon : forall cs a off md b kb pa pb c m ia,
+    sits a off md b cs -> (cs <> [] -> S kb <= List.length (nth_block f b))%nat -> predrel a md pa pb ->
+    nth_error (nth_block g a) (off + kb) = Some ia ->
+    exists off2 md2 b2 cs2 kb2 pb2,
+      steps f (Run b kb pb c m) [] (Run b2 kb2 pb2 c m) /\ sits a off2 md2 b2 cs2 /\ (off + kb = off2 + kb2)%nat /\
+      predrel a md2 pa pb2 /\ (exists ib, nth_error (nth_block f b2) kb2 = Some ib) /\
+      (cs2 <> [] -> S kb2 < List.length (nth_block f b2))%nat.
+  Proof.
+    induction cs as [|b' cs IH]; intros a off md b kb pa pb c m ia Hs Hk Hp Hia.
+    - exists off, md, b, [], kb, pb. split; [constructor|]. split; auto. split; auto. split; auto. split; [|congruence].
+      destruct (pos_end _ _ _ _ Hs) as [HL _].
+      assert (off + kb < List.length (nth_block g a))%nat by (apply nth_error_Some; congruence).
+      destruct (nth_error (nth_block f b) kb) eqn:E; eauto. apply nth_error_None in E. lia.
+    - destruct (pos_mid _ _ _ _ _ _ Hs) as [pre [lst [ps [E [Hjt [Hj [Hlen Hpos]]]]]]].
+      specialize (Hk ltac:(congruence)). rewrite E, app_length in Hk. simpl in Hk.
+      destruct (Nat.lt_ge_cases kb (List.length pre)) as [Hlt|Hge].
+      + exists off, md, b, (b' :: cs), kb, pb. split; [constructor|]. split; auto. split; auto. split; auto. split.
+        * destruct (nth_error pre kb) eqn:E2; [|apply nth_error_None in E2; lia]. eexists. rewrite E, nth_error_app1; eauto.
+        * intros _. rewrite E, app_length. simpl. lia.
+      + assert (kb = List.length pre) by lia. subst kb.
+        destruct (jump_total_targets lv lst c Hjt) as [t Ht].
+        destruct (joint_preds_spec _ _ _ _ Hj t (targets_labels lv _ _ _ Ht)) as [p [Hth Hin]].
+        assert (Hs2 : sits a (off + List.length pre) (Some ps) b' cs) by (eapply sits_next; eauto).
+        destruct (IH a (off + List.length pre)%nat (Some ps) b' 0%nat pa (Some p) c m ia Hs2) as
+            [off2 [md2 [b2 [cs2 [kb2 [pb2 [Hst [Hs3 [He [Hp3 [Hib Hc]]]]]]]]]]].
+        * intros Hne. destruct cs; [congruence|]. eapply sits_mid_nonempty; eauto.
+        * simpl. eauto.
+        * now rewrite Nat.add_0_r.
+        * exists off2, md2, b2, cs2, kb2, pb2. split; [|split; auto; split; [lia|auto]].
+          eapply steps_nil_trans; [|eapply steps_nil_trans; [eapply thread_steps; eauto | exact Hst]].
+          apply steps_one. eapply s_jump; eauto.
+          -- rewrite E. apply nth_app_last'.
+          -- rewrite E, app_length. simpl. lia.
+          -- now apply jump_total_is_jump.
+  Qed.
+End CHAIN.
